@@ -1,7 +1,38 @@
 #!/usr/bin/env python3
 # Regenerates MANIFEST.json from the table below (kept in one place so that it stays valid).
 import json
+conv = 'One inductive step of the REAL Task.Converge/latest/load/insert/update/Delete (and real dig.Integration.Delete) executed symbolically from an arbitrary committed pre-state satisfying the invariant, against a Go model of Postgres cut at pgxpool.Pool.Begin whose statement semantics are parsed from the SQL text, and a hash-linked chain stub; '
 checks = {
+ "C01": dict(
+   text=conv+"z3 decides: no panic, each block p+1..p+d handed to Insert exactly once and in order, one new cursor row (p+d, hash(p+d)), fetch partitions contiguous/non-empty/no wrap, rows cover exactly the position, for batch x concurrency pairs incl. batch < concurrency and non-divisible.",
+   note="Inductive step => histories of any length; bounded in k (cursor rows materialised), batch and concurrency (listed in evidence). Postgres semantics of six statement shapes are my reading (no Postgres binary in the sandbox). Row content per block is C09-C14.",
+   technique="go/ssa symbolic execution of one inductive step -> SMT (z3), Postgres and source as Go models; native replay with the same cut",
+   design="5/C01"),
+ "C02": dict(
+   text=conv+"every I/O point (begin, each statement, COPY, commit, each RPC) may fail under a solver Boolean (single faults exhaustively as a symbolic choice; any subset in the multi-fault runs); z3 decides that no committed state ever has rows beyond the position or a position without rows, that every transaction is closed on every exit, and that a fault-free retry reaches exactly the state of a fault-free step from the same pre-state, on growth and reorg histories.",
+   note="Process death at a point is modelled as an error at that point plus loss of in-memory state (retry from the committed state). Postgres atomicity itself is trusted. Bounds in evidence.",
+   technique="go/ssa symbolic execution with symbolic fault schedule -> SMT (z3); native replay",
+   design="5/C02"),
+ "C03": dict(
+   text=conv+"the top cursor rows carry orphaned hashes over arbitrary (non-consecutive) cursor numbers; up to k+1 steps on the frozen canonical chain; z3 decides the invariant at every commit, canonical hashes of all remaining positions, untouched canonical prefix and rows below the fork.",
+   note="Chain frozen while converging; forks below the retained cursor history are outside (as in the property). Reorgs between RPC calls of one fetch are covered only through C07's segment linkage validation.",
+   technique="go/ssa symbolic execution, bounded multi-step from an inductive pre-state -> SMT (z3); native replay",
+   design="5/C03"),
+ "C04": dict(
+   text=conv+"three foreign pairs (shared source, shared integration name and table, shared table) with arbitrary cursor rows are present during reorg unwinding and inserts; z3 decides they are unchanged (frame condition from the SQL text of every statement, so a dropped src_name/ig_name conjunct is caught). Row stamping is decided on the real row builder.",
+   note="All-interleavings follows from the per-statement frame condition (statements touching only their own pair commute); Postgres row isolation is trusted. Shared-cache clause: C08.",
+   technique="go/ssa symbolic execution -> SMT (z3) frame condition; native replay",
+   design="5/C04"),
+ "C05": dict(
+   text=conv+"1-2 referenced integrations with 0..2 cursor rows (0 = not started) plus a same-named integration on another source; z3 decides the dependent writes nothing until every reference has progress and never advances beyond the smallest newest position.",
+   note="The CTE of latestDependency is hand-modelled from its SQL. ValidateFilterRefs/Dependencies completeness and lookup-on-inserting-transaction are not covered.",
+   technique="go/ssa symbolic execution -> SMT (z3); native replay",
+   design="5/C05"),
+ "C06": dict(
+   text=conv+"start, stop, head and the prior position are free 64-bit values; z3 decides never-before-start, never-after-stop (rows and positions), ErrDone and no write once stop is recorded, resume at position+1 / start / head, ErrAhead without writes, and no panic for any relation of start, stop and head.",
+   note="Bounds: batch sizes listed in evidence; numbers < 2^62. A block above the head has no hash (null -> error after fix c4a5d7e).",
+   technique="go/ssa symbolic execution -> SMT (z3); native replay",
+   design="5/C06"),
  "C07": dict(
    text="Bounded symbolic model checking of the real client functions (Client.Get, blocks, headers, validate, receipts, logs, traces, Latest, Hash, eth.Block.Tx, eth.Logs.Add, eth.Bytes.Write) against an adversarial node cut at Client.do: every decoded number/hash/index/error code is a solver variable, structural corruptions are case-split under a budget; on acceptance z3 decides consecutive numbers, parent linkage, and that every reported log/receipt/trace is attached to the block and transaction it names; no panic on any answer.",
    note="The JSON decoder is replaced by the R1 contract (harness/jrpc2/stub.go, same cut natively for replay). limit <= 3 (quick) / 4 (thorough); HTTP status and undecodable-body handling inside do() are outside (behind net/http and goccy).",
@@ -40,7 +71,7 @@ checks = {
 }
 not_applicable = {
 }
-pending = ["C01","C02","C03","C04","C05","C06","C08","C14","C15","C16","C18","C19","C20"]
+pending = ["C08","C14","C15","C16","C18","C19","C20"]
 m = {
  "version": 1,
  "setup_cmd": "cd /verif/gosym && GOFLAGS=-mod=mod GOPROXY=off GOSUMDB=off GOTOOLCHAIN=local go build -o /verif/bin/gosym .",
